@@ -227,6 +227,10 @@ Ch_RO_U == <<Ch(0, "RO", 100000, 300), Ch(1, "U", 100000, 300)>>
 M(ch, cid, len) == [ch |-> ch, cid |-> cid, len |-> len]
 Msgs_api == <<M(0, 1, 8), M(0, 2, 8)>>
 Msgs_bcast == <<M(0, 1, 5), M(0, 2, 7)>>
+\* a send channel that holds two of these messages but not three: a broadcast finds one client saturated (documented
+\* behaviour: that client is disconnected with a send-channel error) and the others not
+Ch_sat == <<Ch(0, "RO", 12, 300)>>
+Msgs_sat == <<M(0, 1, 5), M(0, 2, 5), M(0, 3, 5), M(0, 4, 5)>>
 NoBound == 0 - 1
 P_C12 == <<"C12">>
 P_C11 == <<"C11", "C01", "C02", "C03", "C08">>
